@@ -55,6 +55,9 @@ func hexes(ss ...string) []string {
 
 func c16convert(c *Ctx, args ...string) {
 	c.Count("calls", 1)
+	if c.n%97 == 3 || len(c.Samp) < 1 {
+		c.Sample(map[string]interface{}{"fn": "ConvertString", "args_hex": hexes(args...)})
+	}
 	var out []string
 	var err error
 	k := try(func() { out, err = gldap.ConvertString(args...) })
@@ -501,6 +504,9 @@ func c16responses(c *Ctx) {
 				for _, i := range order {
 					opts = append(opts, mkopt(i))
 					names = append(names, optNames[i])
+				}
+				if c.n%4001 == 7 {
+					c.Sample(map[string]interface{}{"fn": ctor, "request": op, "options": names})
 				}
 				var resp gldap.Response
 				k := try(func() {
